@@ -2,6 +2,7 @@ import XtModel.Props.C01
 import XtModel.Props.C11
 import XtModel.Props.Json
 import XtModel.Props.C18
+import XtModel.Props.Fidelity
 
 /-!
 # C06 — Round trip and idempotence of xt's own output
@@ -18,6 +19,11 @@ Obligations about concretely modelled code:
   well defined;
 * `Xt.Props.C11.transcode_faithful` / `…valuepath_faithful` — in between, the
   transcoder hands the serializer exactly the values the deserializer produced.
+
+* `Xt.Props.Fidelity.roundtrip_j_m_j` / `roundtrip_own_output` — there and back
+  for the pair JSON / MessagePack on the composed end-to-end model: JSON →
+  MessagePack → JSON reproduces what JSON → JSON writes, byte for byte, for
+  float-free input in any spelling and any combination of supply modes.
 
 The MessagePack fixed point (`msgpack_fixed_point`) is in the C18 file.  YAML
 and TOML writers/readers are parameters (`Y.Idempotent`, `T.Idempotent`,
@@ -50,5 +56,7 @@ theorem json_output_is_fixed_point (F : ExtFloat) (docs : List JVal) (h : docsOk
 
 #print axioms Xt.Props.C18.msgpack_fixed_point
 #print axioms Xt.Props.C18.msgpack_fixed_point_any_input
+#print axioms Xt.Props.Fidelity.roundtrip_j_m_j
+#print axioms Xt.Props.Fidelity.roundtrip_own_output
 
 end Xt.Props.C06
